@@ -7,7 +7,7 @@
                  token soup up to length SOUPLEN, and (SKELDIAG = 1) every skeleton with all holes filled
                  by the same token;  INIT InitX  NEXT NextX
    INVARIANT Emit prints one CASE line per input.
-   Parameters (environment): CORPUS, MAXSOLID, SOUPLEN, ESOUPLEN (expression soup), LSOUPLEN (declaration soup), ARGSLEN (argument lists), SKELDIAG, TRUNCPCT (share of prefixes among
+   Parameters (environment): CORPUS, MAXSOLID, SOUPLEN, ESOUPLEN (expression soup), LSOUPLEN (declaration soup), ARGSLEN (argument lists), LAMLEN (lambda terms), SKELDIAG, TRUNCPCT (share of prefixes among
    the random mutants, in percent). *)
 EXTENDS Pipeline
 VARIABLE st
@@ -23,9 +23,10 @@ CaseOf(s) == CASE s.g = "seed" -> SeedCase(s.p)
                [] s.g = "esoup" -> ESoupCase(s.ix)
                [] s.g = "lsoup" -> LSoupCase(s.ix)
                [] s.g = "args" -> ArgsCase(s.p, s.ix)
+               [] s.g = "lam" -> LamCase(s.p, s.d.a)
                [] s.g = "typing" -> TypingCase(s.p, s.d.a)
 
-Emit == st.g \in {"seed", "orig", "mut", "soup", "skel", "esoup", "lsoup", "args", "typing"} => PrintT(<<"CASE", ToJson(CaseOf(st))>>)
+Emit == st.g \in {"seed", "orig", "mut", "soup", "skel", "esoup", "lsoup", "args", "lam", "typing"} => PrintT(<<"CASE", ToJson(CaseOf(st))>>)
 
 (* ---- random ---- *)
 TruncPct == Nat10(IOEnv.TRUNCPCT)
@@ -45,6 +46,7 @@ SkelDiag == Nat10(IOEnv.SKELDIAG)
 ESoupLen == Nat10(IOEnv.ESOUPLEN)
 LSoupLen == Nat10(IOEnv.LSOUPLEN)
 ArgsLen == Nat10(IOEnv.ARGSLEN)
+LamLen == Nat10(IOEnv.LAMLEN)
 SmallProgs == {p \in 1..NProg : Corpus[p].nsolid <= MaxSolid}
 Tuples(n) == [1..n -> TokIdx]
 InitX == st \in
@@ -55,6 +57,7 @@ InitX == st \in
    UNION { { St("esoup", 0, NoD, ix) : ix \in [1..n -> ExprIdx] } : n \in 1..ESoupLen } \cup
    UNION { { St("lsoup", 0, NoD, ix) : ix \in [1..n -> LineIdx] } : n \in 1..LSoupLen } \cup
    UNION { { St("args", c, NoD, ix) : c \in 1..2, ix \in [1..n -> ArgIdx] } : n \in 1..ArgsLen } \cup
+   UNION { { St("lam", n, [op |-> "lam", i |-> n, a |-> t], <<>>) : t \in 1..Cardinality(LamTerms(n, 0)) } : n \in 1..LamLen } \cup
    UNION { { St("typing", k, [op |-> "typing", i |-> k, a |-> n], <<>>) : n \in 0..Len(TypingTexts[k]) } : k \in 1..Len(TypingTexts) } \cup
    { St("skel", k, NoD, [j \in 1..NHoles(Skeletons[k]) |-> a]) : k \in 1..(SkelDiag * Len(Skeletons)), a \in TokIdx }
 NextX == UNCHANGED st
